@@ -140,19 +140,19 @@ def MeshFields.namedFields (f : MeshFields) : List ((String × Option String) ×
   f.cellFields.map (fun cf => ((cf.name, some cf.ctype), cf.values))
 
 /-- `find_matches_by_name`: first match in the remaining reference fields, which is then removed -/
-def findMatches {κ} [BEq κ] : List (κ × NdArr) → List (κ × NdArr) → List (NdArr × NdArr)
+def findFieldMatches {κ} [BEq κ] : List (κ × NdArr) → List (κ × NdArr) → List (NdArr × NdArr)
   | [], _ => []
   | s :: ss, ref =>
     match ref.findIdx? (fun r => r.1 == s.1) with
-    | some i => (s.2, (ref.getD i s).2) :: findMatches ss (ref.eraseIdx i)
-    | none => findMatches ss ref
+    | some i => (s.2, (ref.getD i s).2) :: findFieldMatches ss (ref.eraseIdx i)
+    | none => findFieldMatches ss ref
 
 /-- one `FieldDataComparator` run: (domain_equality_check, bool(suite)); missing fields are
     skipped, a predicate error counts as failure -/
 def runComparison (domEq : Mesh → Mesh → Bool) (pred : NdArr → NdArr → Verdict)
     (s r : MeshFields) : Bool × Bool :=
   if domEq s.mesh r.mesh then
-    (true, (findMatches s.namedFields r.namedFields).all fun p => pred p.1 p.2 == .ok true)
+    (true, (findFieldMatches s.namedFields r.namedFields).all fun p => pred p.1 p.2 == .ok true)
   else (false, false)
 
 /-- `MeshFieldsComparator.__call__` up to and including the space-dimension rung; `rest` = the
